@@ -149,7 +149,7 @@ def programs(draw, tier):
             xid[0] += 1
             st_.append({'op': 'raise', 'x': xid[0]})
         procs.append({'name': n, 'phase': ph, 'steps': st_})
-    prog = {'nev': nev, 'nflags': nflags, 'procs': procs, 't0': draw(st.sampled_from([0, 0, 5])),
+    prog = {'nev': nev, 'nflags': nflags, 'procs': procs, 't0': draw(st.sampled_from([0, 0, 5, -5, -2.5])),
             'callbacks': draw(st.lists(st.integers(0, nev - 1), max_size=3)),
             'defusers': draw(st.lists(st.integers(0, nev - 1), max_size=1)) if draw(st.integers(0, 2)) == 0 else []}
     u = draw(st.integers(0, 5))
